@@ -34,7 +34,8 @@ from nauyaca.server.middleware import (CertificateAuth, CertificateAuthConfig, C
 from nauyaca.server.protocol import GeminiServerProtocol  # noqa: E402
 
 CAPSULE = {
-    (): ["index.gmi", "pub.gmi"],
+    (): ["index.gmi", "pub.gmi", "apple.gmi"],
+    ("app-x",): ["index.gmi", "keys.gmi"],
     ("app",): ["index.gmi", "secret.gmi"],
     ("app", "public"): ["index.gmi", "open.gmi"],
     ("admin",): ["index.gmi", "panel.gmi"],
